@@ -237,7 +237,7 @@ def _rotvec(ctx, py):
             want = P1 * K + P2 * vvT + P0 * sp.eye(3)
             dom = {s: (-5e-4, 5e-4) for s in vs}
         for i, (g, w) in enumerate(zip(cells, list(want))):
-            v = field.check_zero(g - w, domain=dom, seed=ctx.seed + i)
+            v = field.check_zero(g - w, domain=dom, seed=ctx.seed + i, sides=(g, w))
             ctx.from_verdict("C17.rotvec.%s[%d%d]" % (tag, i // 3, i % 3), "a", v,
                              (lambda pt, _i=i, _big=big: _rotvec_native(py, pt, _i, _big)))
         # every division executed on this path: divisor != 0 for norm^2 in the branch's range, |rv| <= pi
